@@ -840,7 +840,17 @@ class PyFat(object):
         eoc_max = cluster_vals["END_OF_CLUSTER_MAX"]
 
         i = first_cluster
-        while i <= len(self.fat):
+        steps = 0
+        while True:
+            if not 0 <= i < len(self.fat):
+                raise PyFATException(f"Cluster chain leaves the FAT at "
+                                     f"cluster \'{i}\', cannot access file",
+                                     errno=errno.EIO)
+            if steps > len(self.fat):
+                raise PyFATException("Cluster chain loop detected, "
+                                     "cannot access file", errno=errno.EIO)
+            steps += 1
+
             if min_data_cluster <= self.fat[i] <= max_data_cluster:
                 # Normal data cluster, follow chain
                 yield i
